@@ -243,4 +243,350 @@ theorem AllSetEq.symm {L M : List TSet} (h : AllSetEq L M) : AllSetEq M L := by
   | nil => exact .nil
   | cons h1 _ ih => exact .cons h1.symm ih
 
+
+/-! ## FIRST of a symbol string over a correct FIRST environment -/
+
+def FirstOK (G : Grammar) (k : Nat) (fn : Nat → TSet) : Prop :=
+  ∀ A t, t ∈ fn A ↔ FirstK G k [.n A] t
+
+theorem chain_of_yield_spec {G : Grammar} {k : Nat} {env : Nat → TSet} (hk : 1 ≤ k) (hno : NoEoi G)
+    (henv : ∀ A u, Yield G [.n A] u → u.take k ∈ env A)
+    {ss : List Sym} {w : List Nat} (h : Yield G ss w) :
+    Sym.t 0 ∉ ss → ∀ x, TupWf k x → Chain k env x ss ((x ++ w).take k) := by
+  induction h with
+  | nil =>
+    intro _ x hx
+    rw [List.append_nil, take_eq_self_of_wf hx]
+    exact .nil x
+  | @term a ss w _ ih =>
+    intro hss x hx
+    have ha : a ≠ 0 := by intro e; subst e; exact hss List.mem_cons_self
+    have hss' : Sym.t 0 ∉ ss := fun h => hss (List.mem_cons_of_mem _ h)
+    cases hc : tupComplete k x with
+    | true =>
+      rw [take_eq_of_complete ((tupComplete_iff_of_wf hk hx.1 hx.2).1 hc)]
+      exact chain_complete hc _
+    | false =>
+      have hx' : kcat k x [a] = (x ++ [a]).take k := kcat_eq_take_of_incomplete hk hx.1 hx.2 hc
+      have hwf' : TupWf k (kcat k x [a]) := kcat_wf hx (by simp; exact fun e => ha e.symm)
+      have := ih hss' _ hwf'
+      rw [hx', take_append_take_left] at this
+      refine .ext (.t a) hc (z := [a]) (by simp [symSet]) ?_
+      rw [hx']
+      simpa using this
+  | @nonterm p ss u v hp hr _ _ ih2 =>
+    intro hss x hx
+    have hss' : Sym.t 0 ∉ ss := fun h => hss (List.mem_cons_of_mem _ h)
+    have hu0 : 0 ∉ u := yield_no_eoi hno hr (hno p hp)
+    cases hc : tupComplete k x with
+    | true =>
+      rw [take_eq_of_complete ((tupComplete_iff_of_wf hk hx.1 hx.2).1 hc)]
+      exact chain_complete hc _
+    | false =>
+      have hmem : u.take k ∈ env p.lhs := henv _ _ (yield_single hp hr)
+      have hx' : kcat k x (u.take k) = (x ++ u).take k := by
+        rw [kcat_eq_take_of_incomplete hk hx.1 hx.2 hc, take_append_take_right]
+      have hwf' : TupWf k (kcat k x (u.take k)) :=
+        kcat_wf hx (fun h => hu0 (List.mem_of_mem_take h))
+      have := ih2 hss' _ hwf'
+      rw [hx', take_append_take_left, List.append_assoc] at this
+      refine .ext (.n p.lhs) hc (z := u.take k) (by simpa [symSet] using hmem) ?_
+      rw [hx']
+      exact this
+
+theorem chain_sound {G : Grammar} {k : Nat} {env : Nat → TSet} (hk : 1 ≤ k) (hno : NoEoi G)
+    (henv : ∀ A z, z ∈ env A → ∃ u, Yield G [.n A] u ∧ z = u.take k)
+    {x : Tup} {ss : List Sym} {y : Tup} (h : Chain k env x ss y) :
+    (∀ s ∈ ss, ∃ w, Yield G [s] w) → Sym.t 0 ∉ ss → TupWf k x →
+      ∃ w, Yield G ss w ∧ y = (x ++ w).take k := by
+  induction h with
+  | nil x => intro _ _ hx; exact ⟨[], .nil, by rw [List.append_nil, take_eq_self_of_wf hx]⟩
+  | @keep x y s ss hc _ ih =>
+    intro hprod hss hx
+    obtain ⟨w', hw', hy⟩ := ih (fun s' h' => hprod s' (List.mem_cons_of_mem _ h'))
+      (fun h => hss (List.mem_cons_of_mem _ h)) hx
+    obtain ⟨ws, hws⟩ := hprod s List.mem_cons_self
+    have hlen := (tupComplete_iff_of_wf hk hx.1 hx.2).1 hc
+    refine ⟨ws ++ w', ?_, ?_⟩
+    · have := Yield.append hws hw'
+      simpa using this
+    · rw [hy, take_eq_of_complete hlen, take_eq_of_complete hlen]
+  | @ext x y z s ss hc hz _ ih =>
+    intro hprod hss hx
+    have hss' : Sym.t 0 ∉ ss := fun h => hss (List.mem_cons_of_mem _ h)
+    -- z is the k-prefix of a yield of s
+    have hzs : ∃ u, Yield G [s] u ∧ z = u.take k ∧ 0 ∉ u := by
+      cases s with
+      | t a =>
+        simp only [symSet, List.mem_singleton] at hz
+        subst hz
+        have ha : a ≠ 0 := by intro e; subst e; exact hss List.mem_cons_self
+        exact ⟨[a], .term a .nil, (take_singleton_of_pos hk a).symm, by simp; exact fun e => ha e.symm⟩
+      | n B =>
+        obtain ⟨u, hu, rfl⟩ := henv B z hz
+        exact ⟨u, hu, rfl, yield_no_eoi hno hu (by simp)⟩
+    obtain ⟨u, hu, rfl, hu0⟩ := hzs
+    have hx' : kcat k x (u.take k) = (x ++ u).take k := by
+      rw [kcat_eq_take_of_incomplete hk hx.1 hx.2 hc, take_append_take_right]
+    have hwf' : TupWf k (kcat k x (u.take k)) := kcat_wf hx (fun h => hu0 (List.mem_of_mem_take h))
+    obtain ⟨w', hw', hy⟩ := ih (fun s' h' => hprod s' (List.mem_cons_of_mem _ h')) hss' hwf'
+    refine ⟨u ++ w', ?_, ?_⟩
+    · have := Yield.append hu hw'
+      simpa using this
+    · rw [hy, hx', take_append_take_left, List.append_assoc]
+
+/-- over a correct FIRST environment the evaluation of (the compiled parts of) a suffix of a
+    right-hand side is the declarative FIRST_k of that suffix -/
+theorem evalParts_spec {G : Grammar} {k : Nat} {fn : Nat → TSet} (hk : 1 ≤ k) (hno : NoEoi G)
+    (hprod : Productive G) (hfn : FirstOK G k fn) {p : Rule} (hp : p ∈ G.prods)
+    {α β : List Sym} (hr : p.rhs = α ++ β) (t : Tup) :
+    t ∈ evalParts k fn (compileParts β) ↔ FirstK G k β t := by
+  have h0 : Sym.t 0 ∉ β := fun h => hno p hp (by rw [hr]; exact List.mem_append_right _ h)
+  have hsym : ∀ s ∈ β, ∃ w, Yield G [s] w := fun s hs =>
+    yield_sym_exists hprod hp (by rw [hr]; exact List.mem_append_right _ hs)
+  rw [show evalParts k fn (compileParts β) = evalPartsFrom k fn [[]] (compileParts β) from rfl,
+    evalParts_eq_evalSyms hk fn β h0 [[]] t, mem_evalSymsFrom]
+  constructor
+  · rintro ⟨x, hx, hch⟩
+    simp only [List.mem_singleton] at hx
+    subst hx
+    obtain ⟨w, hw, hy⟩ := chain_sound hk hno
+      (fun A z hz => by obtain ⟨u, hu, rfl⟩ := (hfn A z).1 hz; exact ⟨u, hu, rfl⟩) hch hsym h0 (tupWf_nil k)
+    exact ⟨w, hw, by simpa using hy⟩
+  · rintro ⟨w, hw, rfl⟩
+    refine ⟨[], by simp, ?_⟩
+    have := chain_of_yield_spec hk hno (fun A u hu => (hfn A _).2 ⟨u, hu, rfl⟩) hw h0 [] (tupWf_nil k)
+    simpa using this
+
+/-! ## declarative values of positions and accumulators -/
+
+/-- declarative value of the position of an equation -/
+def PosK (G : Grammar) (k : Nat) (e : FEq) (t : Tup) : Prop :=
+  ∃ v1 f, Yield G e.rest v1 ∧ FollowKc G k e.source f ∧ t = (v1 ++ f).take k
+
+def AccSound (G : Grammar) (k : Nat) (acc : Env) : Prop :=
+  ∀ A t, t ∈ envGet acc A → FollowKc G k A t
+
+/-- every left-hand side occurs in a sentential form whose right context derives a terminal string
+    (reachable, and the context is productive) -/
+def Reachable (G : Grammar) : Prop :=
+  ∀ p ∈ G.prods, ∃ γ v, FollowCtx G p.lhs γ ∧ Yield G γ v
+
+theorem followKc_inh {G : Grammar} (hreach : Reachable G) {p : Rule} (hp : p ∈ G.prods) (k : Nat) :
+    ∃ f, FollowKc G k p.lhs f := by
+  obtain ⟨γ, v, hc, hv⟩ := hreach p hp
+  exact ⟨_, γ, v, hc, hv, rfl⟩
+
+theorem posK_follow {G : Grammar} {k : Nat} {e : FEq} (he : e ∈ followEqs G) {t : Tup}
+    (h : PosK G k e t) : FollowKc G k e.target t := by
+  obtain ⟨v1, f, hv1, ⟨γ, v2, hc, hv2, rfl⟩, rfl⟩ := h
+  obtain ⟨p, hp, hs, α, hr⟩ := mem_followEqs he
+  refine ⟨e.rest ++ γ, v1 ++ v2, FollowCtx.step p hp α e.rest γ e.target hr (hs ▸ hc),
+    Yield.append hv1 hv2, ?_⟩
+  rw [take_append_take_right, List.append_assoc]
+
+theorem followKc_tuple_wf {G : Grammar} {k A : Nat} {t : Tup}
+    (h : FollowKc G k A t) : t.length ≤ k := by
+  obtain ⟨_, _, _, _, rfl⟩ := h
+  simp [List.length_take]; omega
+
+theorem followKc_ne_nil {G : Grammar} {k A : Nat} (hk : 1 ≤ k) {t : Tup}
+    (h : FollowKc G k A t) : t ≠ [] := by
+  obtain ⟨_, v, _, _, rfl⟩ := h
+  intro e
+  have := congrArg List.length e
+  simp [List.length_take] at this
+  omega
+
+structure FHyp (G : Grammar) (k : Nat) (fn : Nat → TSet) : Prop where
+  kpos : 1 ≤ k
+  noEoi : NoEoi G
+  prod : Productive G
+  reach : Reachable G
+  first : FirstOK G k fn
+
+theorem eqVal_sound {G : Grammar} {k : Nat} {fn : Nat → TSet} (H : FHyp G k fn) {acc : Env}
+    (hs : AccSound G k acc) {e : FEq} (he : e ∈ followEqs G) {t : Tup} (ht : t ∈ eqVal k fn acc e) :
+    PosK G k e t := by
+  obtain ⟨p, hp, hsrc, α, hr⟩ := mem_followEqs he
+  have hr' : p.rhs = (α ++ [Sym.n e.target]) ++ e.rest := by rw [hr]; simp
+  have hspec := evalParts_spec H.kpos H.noEoi H.prod H.first hp hr'
+  unfold eqVal at ht
+  rw [mem_kcatSetQ] at ht
+  obtain ⟨x, hx, h⟩ := ht
+  obtain ⟨v1, hv1, rfl⟩ := (hspec x).1 hx
+  have h0 : Sym.t 0 ∉ e.rest := fun h => H.noEoi p hp (by rw [hr']; exact List.mem_append_right _ h)
+  have hv0 : 0 ∉ v1 := yield_no_eoi H.noEoi hv1 h0
+  have hwf : TupWf k (v1.take k) := take_wf hv0
+  rcases h with ⟨hc, rfl⟩ | ⟨hc, y, hy, rfl⟩
+  · obtain ⟨f, hf⟩ := followKc_inh H.reach hp k
+    refine ⟨v1, f, hv1, hsrc ▸ hf, ?_⟩
+    have hlen := (tupComplete_iff_of_wf H.kpos hwf.1 hwf.2).1 hc
+    rw [← take_append_take_left, take_eq_of_complete hlen]
+  · refine ⟨v1, y, hv1, hs _ _ hy, ?_⟩
+    rw [kcat_eq_take_of_incomplete H.kpos hwf.1 hwf.2 hc, take_append_take_left]
+
+theorem eqVal_complete {G : Grammar} {k : Nat} {fn : Nat → TSet} (H : FHyp G k fn) {acc : Env}
+    {e : FEq} (he : e ∈ followEqs G) {v1 : List Nat} (hv1 : Yield G e.rest v1) {y : Tup}
+    (hy : y ∈ envGet acc e.source) : (v1 ++ y).take k ∈ eqVal k fn acc e := by
+  obtain ⟨p, hp, hsrc, α, hr⟩ := mem_followEqs he
+  have hr' : p.rhs = (α ++ [Sym.n e.target]) ++ e.rest := by rw [hr]; simp
+  have hspec := evalParts_spec H.kpos H.noEoi H.prod H.first hp hr'
+  have h0 : Sym.t 0 ∉ e.rest := fun h => H.noEoi p hp (by rw [hr']; exact List.mem_append_right _ h)
+  unfold eqVal
+  have hX : ∀ x ∈ evalParts k fn (compileParts e.rest), 0 ∉ x ∧ x.length ≤ k := by
+    intro x hx
+    obtain ⟨u, hu, rfl⟩ := (hspec x).1 hx
+    exact take_wf (yield_no_eoi H.noEoi hu h0)
+  rw [mem_kcatSetQ_wf H.kpos hX (List.ne_nil_of_mem hy)]
+  exact ⟨v1.take k, (hspec _).2 ⟨v1, hv1, rfl⟩, y, hy, (take_append_take_left k v1 y).symm⟩
+
+theorem followStep_sound {G : Grammar} {k : Nat} {fn : Nat → TSet} (H : FHyp G k fn)
+    (es : List FEq) (hes : ∀ e ∈ es, e ∈ followEqs G) :
+    ∀ acc, AccSound G k acc →
+      AccSound G k (followStep k fn es acc).2 ∧
+      ∀ p ∈ es.zip (followStep k fn es acc).1, ∀ t ∈ p.2, PosK G k p.1 t := by
+  induction es with
+  | nil => intro acc h; exact ⟨h, fun p hp => by simp [followStep] at hp⟩
+  | cons e es ih =>
+    intro acc hacc
+    rw [followStep_cons]
+    have he := hes e List.mem_cons_self
+    have hval : ∀ t ∈ eqVal k fn acc e, PosK G k e t := fun t ht => eqVal_sound H hacc he ht
+    have hacc1 : AccSound G k (envUnionAt acc e.target (eqVal k fn acc e)) := by
+      intro A t ht
+      rcases mem_envGet_envUnionAt.1 ht with h | ⟨h1, _, h3⟩
+      · exact hacc A t h
+      · subst h1; exact posK_follow he (hval t h3)
+    obtain ⟨h1, h2⟩ := ih (fun e' he' => hes e' (List.mem_cons_of_mem _ he')) _ hacc1
+    refine ⟨h1, ?_⟩
+    intro p hp t ht
+    simp only [List.zip_cons_cons, List.mem_cons] at hp
+    rcases hp with rfl | hp
+    · exact hval t ht
+    · exact h2 p hp t ht
+
+/-! ## the iteration from a covered state -/
+
+/-- the position map is contained in the accumulators of the targets -/
+def Covered (es : List FEq) (map : List TSet) (acc : Env) : Prop :=
+  ∀ p ∈ es.zip map, ∀ t ∈ p.2, t ∈ envGet acc p.1.target
+
+structure IterOut (G : Grammar) (k : Nat) (fn : Nat → TSet) (acc0 : Env) (P : List TSet) (accF : Env) : Prop where
+  sound : AccSound G k accF
+  grows : ∀ A t, t ∈ envGet acc0 A → t ∈ envGet accF A
+  closed : ∀ e ∈ followEqs G, ∀ t ∈ eqVal k fn accF e, t ∈ envGet accF e.target
+  vals : ∀ p ∈ (followEqs G).zip P, SetEq p.2 (eqVal k fn accF p.1)
+
+theorem mem_zip_of_mem_left {es : List FEq} {P : List TSet} (hlen : P.length = es.length) {e : FEq}
+    (he : e ∈ es) : ∃ S, (e, S) ∈ es.zip P := by
+  induction es generalizing P with
+  | nil => cases he
+  | cons e' es ih =>
+    cases P with
+    | nil => simp at hlen
+    | cons S P =>
+      simp only [List.length_cons, Nat.add_right_cancel_iff] at hlen
+      rcases List.mem_cons.1 he with rfl | he'
+      · exact ⟨S, by simp⟩
+      · obtain ⟨S', hS'⟩ := ih hlen he'
+        exact ⟨S', by simp only [List.zip_cons_cons, List.mem_cons]; exact Or.inr hS'⟩
+
+theorem length_followStep (k : Nat) (fn : Nat → TSet) (es : List FEq) :
+    ∀ acc, (followStep k fn es acc).1.length = es.length := by
+  induction es with
+  | nil => intro acc; rfl
+  | cons e es ih => intro acc; rw [followStep_cons]; simp [ih]
+
+theorem iterFollow_covered {G : Grammar} {k : Nat} {fn : Nat → TSet} (H : FHyp G k fn) :
+    ∀ (fuel : Nat) (map : List TSet) (acc : Env) (P : List TSet) (accF : Env),
+      acc.map (·.1) = ntsOf G → AccSound G k acc → Covered (followEqs G) map acc →
+      iterFollow k fn (followEqs G) fuel map acc = some (P, accF) →
+      IterOut G k fn acc P accF := by
+  intro fuel
+  induction fuel with
+  | zero => intro map acc P accF _ _ _ h; simp [iterFollow] at h
+  | succ f ih =>
+    intro map acc P accF hkeys hsound hcov h
+    simp only [iterFollow] at h
+    have hkeys' : (followStep k fn (followEqs G) acc).2.map (·.1) = ntsOf G := by
+      rw [keys_followStep]; exact hkeys
+    have htk : ∀ e ∈ followEqs G, e.target ∈ acc.map (·.1) := fun e he => by
+      rw [hkeys]; exact target_mem_ntsOf he
+    obtain ⟨hs2, _⟩ := followStep_sound H (followEqs G) (fun e he => he) acc hsound
+    have hcov2 := followStep_covered k fn (followEqs G) acc htk
+    split at h
+    · rename_i hsame
+      injection h with h
+      have h1 := congrArg Prod.fst h
+      have h2 := congrArg Prod.snd h
+      simp only at h1 h2
+      subst h1; subst h2
+      have hall := listSame_iff.1 hsame
+      -- every position result was already in the starting accumulators
+      have hsub : ∀ p ∈ (followEqs G).zip (followStep k fn (followEqs G) acc).1,
+          ∀ t ∈ p.2, t ∈ envGet acc p.1.target := by
+        intro p hp t ht
+        obtain ⟨S', hS', hse⟩ := allSetEq_zip_transfer hall (followEqs G) p hp
+        exact hcov (p.1, S') hS' t ((hse t).1 ht)
+      obtain ⟨heq, hvals⟩ := followStep_stable k fn (followEqs G) acc acc (fun _ => SetEq.refl _) hsub
+      have heq' : EnvEq acc (followStep k fn (followEqs G) acc).2 := fun A => (heq A).symm
+      refine ⟨hs2, followStep_mono k fn _ acc, ?_, ?_⟩
+      · intro e he t ht
+        obtain ⟨S, hS⟩ := mem_zip_of_mem_left (length_followStep k fn _ acc) he
+        have h1 : t ∈ S := ((hvals _ hS) t).2 ((eqVal_congr heq' e t).2 ht)
+        exact hcov2 _ hS t h1
+      · intro p hp
+        exact (hvals p hp).trans (eqVal_congr heq' p.1)
+    · have := ih _ _ P accF hkeys' hs2 hcov2 h
+      exact ⟨this.sound, fun A t ht => this.grows A t (followStep_mono k fn _ acc A t ht),
+        this.closed, this.vals⟩
+
+/-! ## closure gives completeness -/
+
+theorem follow_complete {G : Grammar} {k : Nat} {fn : Nat → TSet} (H : FHyp G k fn) {accF : Env}
+    (hinit : [0] ∈ envGet accF G.start)
+    (hclosed : ∀ e ∈ followEqs G, ∀ t ∈ eqVal k fn accF e, t ∈ envGet accF e.target)
+    {A : Nat} {γ : List Sym} (hc : FollowCtx G A γ) :
+    ∀ v, Yield G γ v → (v ++ [0]).take k ∈ envGet accF A := by
+  induction hc with
+  | start =>
+    intro v hv
+    have := yield_nil_inv hv
+    subst this
+    simp only [List.nil_append]
+    rw [take_singleton_of_pos H.kpos]
+    exact hinit
+  | step p hp α β γ B hr _ ih =>
+    intro v hv
+    obtain ⟨v1, v2, rfl, hv1, hv2⟩ := Yield.split hv
+    obtain ⟨e, he, ht, hs, hrest⟩ := followEqs_complete hp hr
+    have hy := ih v2 hv2
+    have := eqVal_complete H he (hrest ▸ hv1) (hs ▸ hy)
+    have := hclosed e he _ this
+    rw [ht, take_append_take_right, ← List.append_assoc] at this
+    exact this
+
+/-- from the conclusion of the iteration: the accumulators and the position map are the declarative sets -/
+structure FollowOK (G : Grammar) (k : Nat) (P : List TSet) (acc : Env) : Prop where
+  acc : ∀ A t, t ∈ envGet acc A ↔ FollowKc G k A t
+  pos : ∀ p ∈ (followEqs G).zip P, ∀ t, t ∈ p.2 ↔ PosK G k p.1 t
+
+theorem followOK_of_iterOut {G : Grammar} {k : Nat} {fn : Nat → TSet} (H : FHyp G k fn)
+    {acc0 : Env} {P : List TSet} {accF : Env} (hinit : [0] ∈ envGet acc0 G.start)
+    (h : IterOut G k fn acc0 P accF) : FollowOK G k P accF := by
+  have hacc : ∀ A t, t ∈ envGet accF A ↔ FollowKc G k A t := by
+    intro A t
+    refine ⟨h.sound A t, ?_⟩
+    rintro ⟨γ, v, hc, hv, rfl⟩
+    exact follow_complete H (h.grows _ _ hinit) h.closed hc v hv
+  refine ⟨hacc, ?_⟩
+  intro p hp t
+  have he : p.1 ∈ followEqs G := (List.of_mem_zip hp).1
+  rw [h.vals p hp t]
+  constructor
+  · intro ht; exact eqVal_sound H h.sound he ht
+  · rintro ⟨v1, f, hv1, hf, rfl⟩
+    exact eqVal_complete H he hv1 ((hacc _ _).2 hf)
+
 end ParolModel.KS
